@@ -1,7 +1,12 @@
 /-
 Property theorems for Connector (all grid sizes `n`, all agent counts `k`, all states).  Helper lemmas and
 proofs live in Env/Connector/{Lemmas,GridLemmas,ConsLemmas,RefineLemmas,StepLemmas,CountLemmas,RouteLemmas,
-FeasLemmas,SolvableLemmas,SolveLemmas,EpisodeLemmas}.lean.  The first group of theorems only needs the grid to be `n × n`
+FeasLemmas,SolvableLemmas,SolveLemmas,EpisodeLemmas,TraceLemmas,ConservedLemmas,GenLemmas,WalkDefs,WalkLoopLemmas,
+WalkInitLemmas,WalkLemmas,WalkSolvedLemmas}.lean.  Auxiliary facts that used to be listed here as properties (the telescoping identity
+`Connector.episodeReturn_closed`, the unfolding `Connector.objectiveOf_eq`, `Connector.fresh_consistent`,
+`Connector.fresh_feasible`, `Connector.complete_is_solution`) are lemmas in those files, not property theorems.
+Whole-episode theorems are stated over `traceL1` / `finalL1`, the trace of the implementation model `step`;
+`connector_trace_eq` says it is the trace of the rules.  The first group of theorems only needs the grid to be `n × n`
 (`Grid.shaped s.grid n n`) and, where an agent's own cells are rewritten, its stored position inside the grid;
 joint actions are in-spec (`0 ≤ a ≤ 4` for every agent).  The second group (appended sections at the end of the
 file) works from `Consistent n k s` and an in-spec joint action of length `k > 0`: the full refinement
@@ -14,6 +19,8 @@ import JumanjiModel.Env.Connector.Lemmas
 import JumanjiModel.Env.Connector.Bounds
 import JumanjiModel.Env.Connector.SolvableLemmas
 import JumanjiModel.Env.Connector.EpisodeLemmas
+import JumanjiModel.Env.Connector.TraceLemmas
+import JumanjiModel.Env.Connector.WalkSolvedLemmas
 open Jm Jx Connector
 
 namespace Props.C04
@@ -36,6 +43,44 @@ theorem connector_step_agrees (n : Nat) (g : Grid Int) (h : Grid.shaped g n n = 
 example : legal 3 ⟨[[2, 0, 3], [0, 0, 0], [5, 0, 6]], 0, [⟨0, (0, 0), (0, 2), (0, 0)⟩, ⟨1, (2, 0), (2, 2), (2, 0)⟩]⟩ 0 2 ∧
     ¬ legal 3 ⟨[[2, 0, 3], [0, 0, 0], [5, 0, 6]], 0, [⟨0, (0, 0), (0, 2), (0, 0)⟩, ⟨1, (2, 0), (2, 2), (2, 0)⟩]⟩ 0 1 := by
   decide
+end Props.C04
+
+namespace Props.C04
+/-- REACTION OF THE JOINT STEP, agent by agent (consistent state, in-spec joint action): agent `i` with action `a`
+ends on the cell it asked for, `movePosition position a`, if `a` is a move (`a ≠ 0`) that is legal by the rules AND
+no agent with a higher index asks for the same cell with a legal move (`outranked`); in every other case its record
+is exactly what it was (illegal move, no-op, or outranked: it stays) -/
+theorem connector_step_reaction (cfg : Cfg) (s : State) (acts : List Int) (hc : Consistent cfg.n cfg.k s)
+    (hk : 0 < cfg.k) (hlen : acts.length = cfg.k) (hspec : ∀ a ∈ acts, 0 ≤ a ∧ a ≤ 4) {i : Nat} {ag : Agent} {a : Int}
+    (hag : s.agents[i]? = some ag) (ha : acts[i]? = some a) :
+    ((a ≠ 0 ∧ legalInt cfg.n s i a = true ∧ ¬ Connector.outranked cfg.n s acts i (movePosition ag.position a)) →
+      (step cfg s acts).1.agents[i]? = some { ag with position := movePosition ag.position a }) ∧
+    (¬ (a ≠ 0 ∧ legalInt cfg.n s i a = true ∧ ¬ Connector.outranked cfg.n s acts i (movePosition ag.position a)) →
+      (step cfg s acts).1.agents[i]? = some ag) :=
+  Connector.step_reaction cfg s acts hc hk hlen hspec hag ha
+
+/-- … as an equivalence: an agent asking for a move ends on the requested cell iff the move is legal and it is not
+outranked -/
+theorem connector_step_reaction_iff (cfg : Cfg) (s : State) (acts : List Int) (hc : Consistent cfg.n cfg.k s)
+    (hk : 0 < cfg.k) (hlen : acts.length = cfg.k) (hspec : ∀ a ∈ acts, 0 ≤ a ∧ a ≤ 4) {i : Nat} {ag : Agent} {a : Int}
+    (hag : s.agents[i]? = some ag) (ha : acts[i]? = some a) (hne : a ≠ 0) :
+    (step cfg s acts).1.agents[i]? = some { ag with position := movePosition ag.position a } ↔
+      (legalInt cfg.n s i a = true ∧ ¬ Connector.outranked cfg.n s acts i (movePosition ag.position a)) :=
+  Connector.step_reaction_iff cfg s acts hc hk hlen hspec hag ha hne
+
+/-- what `outranked` says -/
+theorem connector_outranked_iff (n : Nat) (s : State) (acts : List Int) (i : Nat) (p : Pos) :
+    Connector.outranked n s acts i p ↔
+      ∃ (j : Nat) (agj : Agent) (aj : Int), i < j ∧ s.agents[j]? = some agj ∧ acts[j]? = some aj ∧ aj ≠ 0 ∧
+        legalInt n s j aj = true ∧ movePosition agj.position aj = p := Iff.rfl
+
+/-- the three-way contest for (1,1) (consistent, see C09): all three moves are legal, agent 2 gets the cell, agents
+0 and 1 are outranked and stay -/
+example :
+    let s : State := ⟨[[0, 2, 0, 0], [5, 0, 8, 0], [0, 0, 0, 0], [3, 6, 9, 0]], 0,
+      [⟨0, (0, 1), (3, 0), (0, 1)⟩, ⟨1, (1, 0), (3, 1), (1, 0)⟩, ⟨2, (1, 2), (3, 2), (1, 2)⟩]⟩
+    legalInt 4 s 0 3 = true ∧ legalInt 4 s 1 2 = true ∧ legalInt 4 s 2 4 = true ∧
+    ((step ⟨4, 3, 50, 1, -3/100⟩ s [3, 2, 4]).1.agents.map (·.position)) = [(0, 1), (1, 0), (1, 1)] := by decide
 end Props.C04
 
 namespace Props.C05
@@ -90,16 +135,6 @@ theorem connector_connected_frozen (cfg : Cfg) (s : State) (acts : List Int) {i 
     (hi : i < cfg.k) (hag : s.agents[i]? = some ag) (ha : acts[i]? = some a) (hc : isConnected ag) :
     (step cfg s acts).1.agents[i]? = some ag := Connector.connected_frozen cfg s acts hi hag ha hc
 
-/-- telescoping: for a monotone sequence of connected flags `[c₀ … c_T]` the sum of the per-step rewards is
-`connected_reward·[¬c₀ ∧ c_T] + timestep_reward·#{t < T | ¬c_t}` -/
-theorem connector_return_telescopes (cR tR : Rat) (cs : List Bool) (h : monotone cs) :
-    episodeReturn cR tR cs = closedForm cR tR cs := Connector.episodeReturn_closed cR tR cs h
-
-/-- the objective the driver reports for agent `i` is that closed form on the episode's states -/
-theorem connector_objective_eq (cfg : Cfg) (tr : List State) (i : Nat) :
-    objectiveOf cfg tr i =
-      closedForm cfg.connectedReward cfg.timestepReward (tr.map (fun s => connectedAt s i)) :=
-  Connector.objectiveOf_eq cfg tr i
 end Props.C08
 
 namespace Props.C09
@@ -212,6 +247,14 @@ theorem connector_step_eq_rules (cfg : Cfg) (s : State) (acts : List Int) (hc : 
     (hk : 0 < cfg.k) (hlen : acts.length = cfg.k) (hspec : ∀ a ∈ acts, 0 ≤ a ∧ a ≤ 4) :
     step cfg s acts = stepL2 cfg s acts := Connector.step_eq_stepL2 cfg s acts hc hk hlen hspec
 
+/-- FULL REFINEMENT, whole episodes: the states an episode of the implementation model passes through (`traceL1`,
+the iterated `step`) are the states the rules produce (`traceL2`, the iterated `stepL2`), for every episode of
+in-spec joint actions from a consistent state -/
+theorem connector_trace_eq (cfg : Cfg) (hk : 0 < cfg.k) (actss : List (List Int))
+    (hspec : ∀ acts ∈ actss, acts.length = cfg.k ∧ ∀ a ∈ acts, 0 ≤ a ∧ a ≤ 4) (s0 : State)
+    (hc : Consistent cfg.n cfg.k s0) : traceL1 cfg s0 actss = traceL2 cfg s0 actss :=
+  Connector.trace_eq cfg hk actss hspec s0 hc
+
 /-- the hypotheses are satisfiable (the three-way contest above) … -/
 example : Consistent 4 3 ⟨[[0, 2, 0, 0], [5, 0, 8, 0], [0, 0, 0, 0], [3, 6, 9, 0]], 0,
     [⟨0, (0, 1), (3, 0), (0, 1)⟩, ⟨1, (1, 0), (3, 1), (1, 0)⟩, ⟨2, (1, 2), (3, 2), (1, 2)⟩]⟩ := by decide
@@ -238,13 +281,23 @@ theorem connector_step_consistent (cfg : Cfg) (s : State) (acts : List Int) (hc 
     (hk : 0 < cfg.k) (hlen : acts.length = cfg.k) (hspec : ∀ a ∈ acts, 0 ≤ a ∧ a ≤ 4) :
     Consistent cfg.n cfg.k (step cfg s acts).1 := Connector.step_consistent cfg s acts hc hk hlen hspec
 
-/-- the generator post-condition checked on every reset state (`freshB`: consistent, step count 0, nobody has
-moved, starts and targets are `2k` different cells, no other cell occupied) gives a consistent state -/
-theorem connector_reset_consistent (n k : Nat) (s : State) (h : freshB n k s = true) : Consistent n k s :=
-  Connector.fresh_consistent n k s h
+/-- C07 occupancy conservation: ANY in-spec joint action from a consistent state satisfies the occupancy bookkeeping
+the driver evaluates on every implementation transition (`conservedB`): no occupied cell is freed or changes owner,
+every agent keeps its identity and stays or moves to a 4-neighbour, and the number of occupied cells grows by
+exactly one for every agent that moved onto an empty cell -/
+theorem connector_step_conserved (cfg : Cfg) (s : State) (acts : List Int) (hc : Consistent cfg.n cfg.k s)
+    (hk : 0 < cfg.k) (hlen : acts.length = cfg.k) (hspec : ∀ a ∈ acts, 0 ≤ a ∧ a ≤ 4) :
+    conservedB s (step cfg s acts).1 = true := Connector.step_conserved cfg s acts hc hk hlen hspec
 
-example : freshB 3 2 ⟨[[2, 0, 3], [0, 0, 0], [5, 0, 6]], 0,
-    [⟨0, (0, 0), (0, 2), (0, 0)⟩, ⟨1, (2, 0), (2, 2), (2, 0)⟩]⟩ = true := by decide
+/-- reset, `UniformRandomGenerator`: for EVERY possible draw of `choice(replace=False)` (2k pairwise different cells
+`< n²`) the generated state is consistent -/
+theorem connector_uniform_reset_consistent (n k : Nat) (cells : List Nat) (h : validUniformDraw n k cells = true) :
+    Consistent n k (uniformGenerate n k cells) :=
+  Connector.fresh_consistent n k _ (Connector.uniform_reset_fresh n k cells h)
+
+example : validUniformDraw 3 2 [0, 6, 2, 8] = true ∧
+    uniformGenerate 3 2 [0, 6, 2, 8] = ⟨[[2, 0, 3], [0, 0, 0], [5, 0, 6]], 0,
+      [⟨0, (0, 0), (0, 2), (0, 0)⟩, ⟨1, (2, 0), (2, 2), (2, 0)⟩]⟩ := by decide
 end Props.C07
 
 namespace Props.C06
@@ -255,17 +308,17 @@ theorem connector_step_feasible (cfg : Cfg) (s : State) (acts : List Int) (hf : 
     (hk : 0 < cfg.k) (hlen : acts.length = cfg.k) (hspec : ∀ a ∈ acts, 0 ≤ a ∧ a ≤ 4) :
     Feasible cfg.n cfg.k (step cfg s acts).1 := Connector.step_feasible cfg s acts hf hk hlen hspec
 
-/-- whole episodes: every state an episode passes through (the states of `traceL2`, which by the refinement
-`step = stepL2` are the states of the implementation model) from a feasible state under in-spec joint actions is
-feasible -/
+/-- whole episodes: every state an episode of the implementation model passes through (`traceL1`, the iterated
+`step`) from a feasible state under in-spec joint actions is feasible -/
 theorem connector_feasible_along (cfg : Cfg) (hk : 0 < cfg.k) (actss : List (List Int))
     (hspec : ∀ acts ∈ actss, acts.length = cfg.k ∧ ∀ a ∈ acts, 0 ≤ a ∧ a ≤ 4) (s0 : State)
-    (hf : Feasible cfg.n cfg.k s0) : ∀ s ∈ traceL2 cfg s0 actss, Feasible cfg.n cfg.k s :=
-  Connector.feasible_along cfg hk actss hspec s0 hf
+    (hf : Feasible cfg.n cfg.k s0) : ∀ s ∈ traceL1 cfg s0 actss, Feasible cfg.n cfg.k s :=
+  Connector.feasible_along_L1 cfg hk actss hspec s0 hf
 
-/-- a reset state satisfying the generator post-condition is feasible (there are no path cells yet) -/
-theorem connector_reset_feasible (n k : Nat) (s : State) (h : freshB n k s = true) : Feasible n k s :=
-  Connector.fresh_feasible n k s h
+/-- reset, `UniformRandomGenerator`: for EVERY possible draw the generated state is feasible (no path cells yet) -/
+theorem connector_uniform_reset_feasible (n k : Nat) (cells : List Nat) (h : validUniformDraw n k cells = true) :
+    Feasible n k (uniformGenerate n k cells) :=
+  Connector.fresh_feasible n k _ (Connector.uniform_reset_fresh n k cells h)
 
 /-- what `Feasible` means: agent number `i` owns a chain of 4-adjacent, pairwise different cells inside the grid
 from its start to its head, every cell of which holds a value of agent `i` … -/
@@ -278,13 +331,37 @@ theorem connector_routes_disjoint (n : Nat) (g : Grid Int) (i j : Nat) (hij : i 
     (r r' : List Pos) (h : Connector.GoodRoute n g i a b r) (h' : Connector.GoodRoute n g j a' b' r') :
     ∀ c, c ∈ r → c ∉ r' := Connector.goodRoute_disjoint hij h h'
 
-/-- an episode that ends by completion (every agent connected) in a feasible state ends in a complete solution:
-`solutionB` holds and every agent owns a chain from its start to its target -/
-theorem connector_complete_is_solution (n k : Nat) (s : State) (hf : Feasible n k s)
-    (hall : ∀ ag ∈ s.agents, isConnected ag) :
-    solutionB n k s = true ∧
-      ∀ (i : Nat) ag, s.agents[i]? = some ag → ∃ r, Connector.GoodRoute n s.grid i ag.start ag.target r :=
-  Connector.complete_is_solution hf hall
+/-- completion: if a step from a feasible state is LAST before the time limit is reached and no unconnected agent
+is blocked in the successor state (every unconnected agent still has a legal move), then the successor is a
+complete solution: `solutionB` holds (feasible, every agent connected) and every agent owns a chain of its own
+cells from its start to its target.  (LAST before the limit means every agent is connected or blocked,
+`connector_last_iff`; a blocked unconnected agent ends the episode WITHOUT a solution — see the example.) -/
+theorem connector_step_complete_is_solution (cfg : Cfg) (s : State) (acts : List Int)
+    (hf : Feasible cfg.n cfg.k s) (hk : 0 < cfg.k) (hlen : acts.length = cfg.k)
+    (hspec : ∀ a ∈ acts, 0 ≤ a ∧ a ≤ 4) (hlast : (step cfg s acts).2.stepType = .last)
+    (hlim : (step cfg s acts).1.stepCount < cfg.timeLimit)
+    (hnb : ∀ (i : Nat) ag, (step cfg s acts).1.agents[i]? = some ag → ¬ isConnected ag →
+      ∃ a, 1 ≤ a ∧ a ≤ 4 ∧ legal cfg.n (step cfg s acts).1 i a) :
+    solutionB cfg.n cfg.k (step cfg s acts).1 = true ∧
+      ∀ (i : Nat) ag, (step cfg s acts).1.agents[i]? = some ag →
+        ∃ r, Connector.GoodRoute cfg.n (step cfg s acts).1.grid i ag.start ag.target r :=
+  Connector.step_complete_is_solution cfg s acts hf hk hlen hspec hlast hlim hnb
+
+/-- the hypotheses are satisfiable: the last move of a 3 × 3 episode (agent 1 steps onto its target; agent 0 is
+already connected) is LAST at step count 4 < 50 and nobody is blocked … -/
+example :
+    let cfg : Cfg := ⟨3, 2, 50, 1, -3/100⟩
+    let s : State := ⟨[[1, 1, 2], [0, 0, 0], [4, 5, 6]], 3, [⟨0, (0, 0), (0, 2), (0, 2)⟩, ⟨1, (2, 0), (2, 2), (2, 1)⟩]⟩
+    feasibleB 3 2 s = true ∧ (step cfg s [0, 2]).2.stepType = .last ∧ (step cfg s [0, 2]).1.stepCount < cfg.timeLimit ∧
+    solutionB 3 2 (step cfg s [0, 2]).1 = true := by decide
+
+/-- … and the hypothesis "no blocked unconnected agent" is needed: agent 1 connects by walling agent 0 in; the step
+is LAST before the limit (agent 0 blocked, agent 1 connected) and the final state is not a solution -/
+example :
+    let cfg : Cfg := ⟨3, 2, 50, 1, -3/100⟩
+    let s : State := ⟨[[2, 4, 0], [5, 4, 0], [6, 0, 3]], 2, [⟨0, (0, 0), (2, 2), (0, 0)⟩, ⟨1, (0, 1), (2, 0), (1, 0)⟩]⟩
+    feasibleB 3 2 s = true ∧ (step cfg s [0, 3]).2.stepType = .last ∧ (step cfg s [0, 3]).1.stepCount < cfg.timeLimit ∧
+    solutionB 3 2 (step cfg s [0, 3]).1 = false := by decide
 
 /-- the executable route test is also complete: it accepts exactly when there are no path cells (agent has not
 moved) or a valid search output exists, i.e. the depth-first search never misses a route -/
@@ -315,6 +392,67 @@ theorem connector_walk_board_solvable (n k : Nat) (s : State) (solved : Grid Int
 
 example : solvedBoardB 3 2 ⟨[[2, 0, 3], [0, 0, 0], [5, 0, 6]], 0,
     [⟨0, (0, 0), (0, 2), (0, 0)⟩, ⟨1, (2, 0), (2, 2), (2, 0)⟩]⟩ [[2, 1, 3], [0, 0, 0], [5, 4, 6]] = true := by decide
+end Props.C10
+
+/-! ## The generators (transliterations `uniformGenerate`, `walkGenerate`; tied to the code by `connector.instance`:
+`uniform_draw_valid`, `uniform_transliteration`, `walk_draw_valid`, `walk_transliteration`) -/
+
+namespace Props.C10
+/-- `UniformRandomGenerator`: for EVERY possible result of `jax.random.choice(arange(n²), (2, k), replace=False)` — `2k`
+pairwise different cells `< n²`, any `n`, `k` — the generated board satisfies the generator post-condition `freshB`:
+consistent, step count 0, every agent on its start, starts and targets `2k` pairwise different cells, no other cell
+occupied -/
+theorem connector_uniform_reset_fresh (n k : Nat) (cells : List Nat) (h : validUniformDraw n k cells = true) :
+    freshB n k (uniformGenerate n k cells) = true := Connector.uniform_reset_fresh n k cells h
+
+/-- the board both generators emit (empty grid, head values scattered at `starts`, target values at `targets`) is
+fresh whenever starts and targets are `2k` pairwise different cells inside the grid -/
+theorem connector_emit_fresh (n k : Nat) (starts targets : List Pos) (hs : starts.length = k)
+    (ht : targets.length = k) (hnd : (starts ++ targets).Nodup) (hin : ∀ p ∈ starts ++ targets, inGrid n p) :
+    freshB n k (emitBoard n k starts targets) = true := Connector.emit_fresh n k starts targets hs ht hnd hin
+
+/-- `RandomWalkGenerator`: for ALL possible draws — the start / first-move cells of `_initialize_agents` and the
+whole tape of cells drawn by `_select_action` (any length; `validWalkDraw`: every draw is a possible result of
+`jax.random.choice` on the transliterated `_available_cells`, and the tape ends exactly when `_continue_stepping`
+fails) — in which no agent is boxed in at its start (no first-move draw is the `-1` padding; otherwise see the
+witness below, known finding CN1), the emitted board is fresh -/
+theorem connector_walk_reset_fresh (n k : Nat) (hn : 0 < n) (hk : 0 < k) (init : List (Int × Int))
+    (tape : List (List Int)) (hv : validWalkDraw n k init tape = true) (hnb : ∀ d ∈ init, d.2 ≠ -1) :
+    freshB n k (walkGenerate n k init tape).2 = true := Connector.walk_reset_fresh n k hn hk init tape hv hnb
+
+/-- `RandomWalkGenerator`, the walk's own solution: under the same hypotheses (all possible draws, no boxed-in start)
+the solved board `generate_board` records is accepted by the `walk_board_solvable` certificate for the emitted
+board (`solvedBoardB`: every agent's recorded path cells form a route from its head to its target, all inside the
+grid, and every cell the recording uses is free on the emitted board).  With `connector_walk_reset_fresh` this feeds
+`connector_walk_board_operationally_solvable`: every such generated board is solved by an explicit legal episode. -/
+theorem connector_walk_solved_board (n k : Nat) (hn : 0 < n) (hk : 0 < k) (init : List (Int × Int))
+    (tape : List (List Int)) (hv : validWalkDraw n k init tape = true) (hnb : ∀ d ∈ init, d.2 ≠ -1) :
+    solvedBoardB n k (walkGenerate n k init tape).2 (walkGenerate n k init tape).1 = true :=
+  Connector.walk_solved_board n k hn hk init tape hv hnb
+
+/-- the hypotheses are satisfiable: a 3 × 3 walk of two agents (agent 0 starts at cell 0 and first moves to cell 1,
+agent 1 starts at cell 8 and first moves to cell 7; in the first iteration both draw cell 4 and agent 1 gets it;
+three iterations) -/
+example : validWalkDraw 3 2 [(0, 1), (8, 7)] [[4, 4], [2, 3], [5, -1]] = true ∧
+    (walkGenerate 3 2 [(0, 1), (8, 7)] [[4, 4], [2, 3], [5, -1]]).1 = [[2, 1, 1], [6, 4, 3], [0, 4, 5]] ∧
+    (walkGenerate 3 2 [(0, 1), (8, 7)] [[4, 4], [2, 3], [5, -1]]).2.grid = [[2, 0, 0], [6, 0, 3], [0, 0, 5]] := by
+  decide
+
+/-- KNOWN FINDING CN1 (boxed-in start ⇒ off-grid first move): on a 3 × 3 grid agent 0 starts at (0,1), agent 1 at
+(1,0), and agent 2 draws the start (0,0), whose two neighbours are now occupied: `_available_cells` is all `-1`,
+`jax.random.choice` with an all-zero probability vector returns that padding `-1` as the first move, the head value
+is scattered at flat index `-1` (= cell (2,2)) and the walk continues from the off-grid position (-1, 2).  All draws
+are possible; the emitted board puts agent 2's head at (0,0) between the heads of agents 0 and 1: it has no legal
+move, the recorded "solution" is rejected by the certificate, and the board cannot be solved although the generator
+documents solvability.  (Real code: `Connector().reset(jax.random.PRNGKey(890466656))`, agent 4 walled in at (9,9).) -/
+theorem connector_walk_boxed_in_witness :
+    let init : List (Int × Int) := [(1, 4), (3, 6), (0, -1)]
+    let tape : List (List Int) := [[7, 7, 2], [5, -1, -1]]
+    let r := walkGenerate 3 3 init tape
+    validWalkDraw 3 3 init tape = true ∧
+    r.2.grid = [[8, 2, 9], [5, 0, 3], [0, 6, 0]] ∧ r.1 = [[8, 2, 9], [5, 1, 3], [4, 6, 7]] ∧
+    solvedBoardB 3 3 r.2 r.1 = false ∧
+    (([1, 2, 3, 4] : List Nat).all (fun a => !decide (legal 3 r.2 2 a))) = true := by decide
 end Props.C10
 
 /-! ## Operational solvability and the return of the solving episode (proof completion 2) -/
@@ -352,36 +490,38 @@ theorem connector_cert_gives_plan (n k : Nat) (s : State) (solved : Grid Int) (h
 /-- OPERATIONAL SOLVABILITY, step by step.  From ANY state with a route plan (every `n`, every `k`) play the
 explicit joint-action sequence `planActs k routes`: agent 0 walks along its route one cell per step while all
 others play the no-op, then agent 1, and so on.  At every step `t` of that episode (state `s` before the step,
-joint action `a`; `traceL2` is the sequence of states under the rules):
+joint action `a`; `traceL1` is the sequence of states under the implementation model `step`):
 * `a` is in-spec (one action `0..4` per agent);
 * every agent's action is allowed by the mask the implementation hands out (L1 `actionMask`) and legal by the rules;
 * the implementation step is the rule-level step (`step = stepL2`: state, reward, discount, step type, observation);
 * every agent ends exactly where its action sends it: nobody collides, nobody is refused;
-* the successor state is the next state of the trace (so the trace is also the trace of the L1 `step`);
+* the successor state is the next state of the trace;
 * the step is LAST exactly when it is the final step of the plan (completion) or the time limit is reached. -/
 theorem connector_plan_playable (cfg : Cfg) (s0 : State) (routes : List (List Pos))
     (P : Connector.Plan cfg.n cfg.k s0 routes) (t : Nat) (s : State) (a : List Int)
-    (hs : (traceL2 cfg s0 (planActs cfg.k routes))[t]? = some s) (ha : (planActs cfg.k routes)[t]? = some a) :
+    (hs : (traceL1 cfg s0 (planActs cfg.k routes))[t]? = some s) (ha : (planActs cfg.k routes)[t]? = some a) :
     (a.length = cfg.k ∧ ∀ x ∈ a, 0 ≤ x ∧ x ≤ 4) ∧
     (∀ j, j < cfg.k → ((actionMask s.grid s.agents).getD j []).getD (a.getD j 0).toNat false = true ∧
         legal cfg.n s j (a.getD j 0).toNat) ∧
     step cfg s a = stepL2 cfg s a ∧
     (step cfg s a).1.agents =
       List.zipWith (fun (ag : Agent) (x : Int) => { ag with position := movePosition ag.position x }) s.agents a ∧
-    (traceL2 cfg s0 (planActs cfg.k routes))[t + 1]? = some (step cfg s a).1 ∧
+    (traceL1 cfg s0 (planActs cfg.k routes))[t + 1]? = some (step cfg s a).1 ∧
     ((step cfg s a).2.stepType = .last ↔
-      (t + 1 = (planActs cfg.k routes).length ∨ cfg.timeLimit ≤ s.stepCount + 1)) :=
-  Connector.plan_episode cfg s0 routes P t s a hs ha
+      (t + 1 = (planActs cfg.k routes).length ∨ cfg.timeLimit ≤ s.stepCount + 1)) := by
+  rw [(Connector.plan_trace_eq cfg s0 routes P).1] at hs ⊢
+  exact Connector.plan_episode cfg s0 routes P t s a hs ha
 
-/-- … and the episode ends with every agent connected; if the start state is feasible (as every reset state is,
-`connector_reset_feasible`) the final state is a complete solution -/
+/-- … and the episode ends with every agent connected; if the start state is feasible (as every generated reset state is,
+`connector_uniform_reset_feasible`, `connector_walk_reset_fresh`) the final state is a complete solution -/
 theorem connector_plan_solves (cfg : Cfg) (s0 : State) (routes : List (List Pos))
     (P : Connector.Plan cfg.n cfg.k s0 routes) :
-    (traceL2 cfg s0 (planActs cfg.k routes)).getLast? = some (finalL2 cfg s0 (planActs cfg.k routes)) ∧
-    (∀ ag ∈ (finalL2 cfg s0 (planActs cfg.k routes)).agents, isConnected ag) ∧
-    (Feasible cfg.n cfg.k s0 → solutionB cfg.n cfg.k (finalL2 cfg s0 (planActs cfg.k routes)) = true) :=
-  ⟨Connector.traceL2_getLast cfg s0 _, (Connector.plan_solves cfg s0 routes P).2,
-    Connector.plan_final_solution cfg s0 routes P⟩
+    (traceL1 cfg s0 (planActs cfg.k routes)).getLast? = some (finalL1 cfg s0 (planActs cfg.k routes)) ∧
+    (∀ ag ∈ (finalL1 cfg s0 (planActs cfg.k routes)).agents, isConnected ag) ∧
+    (Feasible cfg.n cfg.k s0 → solutionB cfg.n cfg.k (finalL1 cfg s0 (planActs cfg.k routes)) = true) := by
+  refine ⟨Connector.traceL1_getLast cfg s0 _, ?_, ?_⟩
+  · rw [(Connector.plan_trace_eq cfg s0 routes P).2]; exact (Connector.plan_solves cfg s0 routes P).2
+  · rw [(Connector.plan_trace_eq cfg s0 routes P).2]; exact Connector.plan_final_solution cfg s0 routes P
 
 /-- the headline, from the certificate: every generated board accepted by `walk_board_solvable` is solved by the
 explicit episode `solveActs` (read off the recorded solution): all its joint actions are in-spec, and it ends in
@@ -390,10 +530,27 @@ L1 = L2 and LAST-by-completion are `connector_plan_playable` with the plan of `c
 theorem connector_walk_board_operationally_solvable (cfg : Cfg) (s : State) (solved : Grid Int)
     (hfresh : freshB cfg.n cfg.k s = true) (hcert : solvedBoardB cfg.n cfg.k s solved = true) :
     (∀ acts ∈ solveActs cfg.n cfg.k s solved, acts.length = cfg.k ∧ ∀ a ∈ acts, 0 ≤ a ∧ a ≤ 4) ∧
-    solutionB cfg.n cfg.k (finalL2 cfg s (solveActs cfg.n cfg.k s solved)) = true :=
-  ⟨Connector.plan_spec cfg s _ (connector_cert_gives_plan cfg.n cfg.k s solved hfresh hcert),
-    Connector.plan_final_solution cfg s _ (connector_cert_gives_plan cfg.n cfg.k s solved hfresh hcert)
-      (Connector.fresh_feasible cfg.n cfg.k s hfresh)⟩
+    solutionB cfg.n cfg.k (finalL1 cfg s (solveActs cfg.n cfg.k s solved)) = true := by
+  have P := connector_cert_gives_plan cfg.n cfg.k s solved hfresh hcert
+  refine ⟨Connector.plan_spec cfg s _ P, ?_⟩
+  unfold solveActs
+  rw [(Connector.plan_trace_eq cfg s _ P).2]
+  exact Connector.plan_final_solution cfg s _ P (Connector.fresh_feasible cfg.n cfg.k s hfresh)
+
+/-- THE GENERATOR'S PROMISE, end to end: for every grid size, every agent count and ALL possible draws of
+`RandomWalkGenerator` in which no agent is boxed in at its start (CN1 otherwise), the emitted board is solved by the
+explicit in-spec episode read off the generator's own recorded solution: played on the implementation model `step`
+from the emitted reset state it ends in a complete solution -/
+theorem connector_walk_generated_board_solvable (cfg : Cfg) (hn : 0 < cfg.n) (hk : 0 < cfg.k)
+    (init : List (Int × Int)) (tape : List (List Int)) (hv : validWalkDraw cfg.n cfg.k init tape = true)
+    (hnb : ∀ d ∈ init, d.2 ≠ -1) :
+    (∀ acts ∈ solveActs cfg.n cfg.k (walkGenerate cfg.n cfg.k init tape).2 (walkGenerate cfg.n cfg.k init tape).1,
+      acts.length = cfg.k ∧ ∀ a ∈ acts, 0 ≤ a ∧ a ≤ 4) ∧
+    solutionB cfg.n cfg.k (finalL1 cfg (walkGenerate cfg.n cfg.k init tape).2
+      (solveActs cfg.n cfg.k (walkGenerate cfg.n cfg.k init tape).2 (walkGenerate cfg.n cfg.k init tape).1)) = true :=
+  connector_walk_board_operationally_solvable cfg _ _
+    (connector_walk_reset_fresh cfg.n cfg.k hn hk init tape hv hnb)
+    (connector_walk_solved_board cfg.n cfg.k hn hk init tape hv hnb)
 
 /-- the hypotheses are satisfiable: the certified 3 × 3 board above; its solving episode has four steps (agent 0
 goes right twice while agent 1 waits, then agent 1 goes right twice) and ends on the recorded solution with the
@@ -404,7 +561,7 @@ example :
     let cfg : Cfg := ⟨3, 2, 50, 1, -3/100⟩
     freshB 3 2 s = true ∧ solvedBoardB 3 2 s solved = true ∧
     solveActs 3 2 s solved = [[2, 0], [2, 0], [0, 2], [0, 2]] ∧
-    (finalL2 cfg s (solveActs 3 2 s solved)).grid = [[1, 1, 2], [0, 0, 0], [4, 4, 5]] := by decide
+    (finalL1 cfg s (solveActs 3 2 s solved)).grid = [[1, 1, 2], [0, 0, 0], [4, 4, 5]] := by decide
 
 /-- … so the hypothesis `Plan` of `connector_plan_playable` / `connector_plan_solves` is satisfiable: the routes
 `[(0,0),(0,1),(0,2)]` and `[(2,0),(2,1),(2,2)]` read off the recorded solution are a route plan of that board -/
@@ -421,20 +578,21 @@ unconnected -/
 theorem connector_episode_return (cfg : Cfg) (hk : 0 < cfg.k) (actss : List (List Int))
     (hspec : ∀ acts ∈ actss, acts.length = cfg.k ∧ ∀ a ∈ acts, 0 ≤ a ∧ a ≤ 4) (s0 : State)
     (hc : Consistent cfg.n cfg.k s0) (i : Nat) (hi : i < cfg.k) :
-    returnL1 cfg s0 actss i = objectiveOf cfg (traceL2 cfg s0 actss) i :=
-  Connector.episode_return_eq_objective cfg hk actss hspec s0 hc hi
+    returnL1 cfg s0 actss i = objectiveOf cfg (traceL1 cfg s0 actss) i :=
+  Connector.episode_return_L1 cfg hk actss hspec s0 hc hi
 
 /-- corollary for the solving episode of a route plan: every agent's return is the documented objective, which
 here is the connection reward (every agent ends connected; an agent connected from the start gets none) plus the
 per-step time penalty for every step it started unconnected -/
 theorem connector_solving_episode_return (cfg : Cfg) (s0 : State) (routes : List (List Pos))
     (P : Connector.Plan cfg.n cfg.k s0 routes) (i : Nat) (hi : i < cfg.k) :
-    returnL1 cfg s0 (planActs cfg.k routes) i = objectiveOf cfg (traceL2 cfg s0 (planActs cfg.k routes)) i ∧
-    objectiveOf cfg (traceL2 cfg s0 (planActs cfg.k routes)) i =
+    returnL1 cfg s0 (planActs cfg.k routes) i = objectiveOf cfg (traceL1 cfg s0 (planActs cfg.k routes)) i ∧
+    objectiveOf cfg (traceL1 cfg s0 (planActs cfg.k routes)) i =
       (if connectedAt s0 i then 0 else cfg.connectedReward) +
         cfg.timestepReward *
-          ((((traceL2 cfg s0 (planActs cfg.k routes)).dropLast).filter (fun s => !connectedAt s i)).length : Nat) :=
-  Connector.plan_return cfg s0 routes P hi
+          ((((traceL1 cfg s0 (planActs cfg.k routes)).dropLast).filter (fun s => !connectedAt s i)).length : Nat) := by
+  rw [(Connector.plan_trace_eq cfg s0 routes P).1]
+  exact Connector.plan_return cfg s0 routes P hi
 
 /-- explicit value: in the solving episode agent `i` (unconnected at the start) pays the time penalty for the
 steps of agents `0 … i` — agent `j` takes `|r_j| − 1` steps, one per edge of its route — and collects the connection
